@@ -39,9 +39,9 @@ DIALECTS = ('smiV2', 'smiV1', 'smiV1Relaxed')
 GOOD_PROFILE = None
 
 
-def _profile():
+def _profile(sequential=False):
     return setcheck.profile_for(None, backends=('json', 'pysnmp'), dialects=('v2', 'v2', 'v1'), modules=(1, 1),
-                                decls=(2, 9), texts='plain', skipblocks=True)
+                                decls=(2, 9), texts='plain', skipblocks=True, sequential_names=sequential)
 
 
 BAD_SNIPPETS = ['X DEFINITIONS ::= BEGIN\n', 'X DEFINITIONS ::= BEGIN\nOBJECT-TYPE MACRO ::= BEGIN\n a\n b\n c\n',
@@ -50,9 +50,33 @@ BAD_SNIPPETS = ['X DEFINITIONS ::= BEGIN\n', 'X DEFINITIONS ::= BEGIN\nOBJECT-TY
                 'X DEFINITIONS ::= BEGIN\n\n\n a OBJECT IDENTIFIER ::= { 1 99999999999999999999999 }\nEND\n']
 
 
+EDITION_NAMES = ('ED1-MIB', 'ED2-MIB', 'ED3-MIB')
+
+
+def _as_editions(mset):
+    """Rename the modules of a set to fixed names, so that later steps of a history hand the long-lived objects a
+    *different edition of a module they have already seen* (same name, other content)."""
+    text = json.dumps(mset)
+    for i, m in enumerate(mset['modules']):
+        text = text.replace(json.dumps(m['name']), json.dumps(EDITION_NAMES[i]))
+    return json.loads(text)
+
+
 @st.composite
 def steps(draw):
-    kind = draw(st.sampled_from(('parse-good', 'parse-bad', 'parse-bad', 'gen-json', 'gen-json', 'gen-pysnmp', 'repeat', 'compile')))
+    kind = draw(st.sampled_from(('parse-good', 'parse-bad', 'parse-bad', 'gen-json', 'gen-json', 'gen-pysnmp', 'repeat', 'compile',
+                                 'gen-editions')))
+    if kind == 'gen-editions':
+        # two editions of one module (same module name, same identifiers, other definitions) through the same generator
+        prof = setcheck.profile_for(None, backends=('json', 'pysnmp'), dialects=('v2',), modules=(1, 1), decls=(3, 8),
+                                    texts='short', skipblocks=False, sequential_names=True,
+                                    kinds=('type', 'typefam', 'scalar', 'scalar', 'table'))
+        backend = draw(st.sampled_from(('json', 'pysnmp')))
+        out = []
+        for i in range(2):
+            ms = _as_editions(draw(mibgen.module_sets(prof)))
+            out.append({'k': 'gen', 'backend': backend, 'mod': ms['modules'][0], 'genTexts': False, 'keepLayout': False})
+        return out
     if kind == 'parse-good':
         m = draw(mibgen.module_sets(_profile()))['modules'][0]
         toks, _ = mibgen.module_tokens(m)
@@ -72,20 +96,30 @@ def steps(draw):
             text = text[:pos] + draw(st.sampled_from(('$', ' FALSE ', ' . ', '"', ' 99999999999999999999999 '))) + text[pos:]
         return {'k': 'parse', 'text': text, 'dialect': 'smiV1' if m['dialect'] == 'v1' else 'smiV2'}
     if kind in ('gen-json', 'gen-pysnmp'):
-        ms = draw(mibgen.module_sets(_profile()))
+        edition = draw(st.booleans())
+        ms = draw(mibgen.module_sets(_profile(sequential=edition)))
+        if edition:
+            ms = _as_editions(ms)
         return {'k': 'gen', 'backend': 'json' if kind == 'gen-json' else 'pysnmp', 'mod': ms['modules'][0],
                 'genTexts': draw(st.booleans()), 'keepLayout': draw(st.integers(0, 2)) == 0}
     if kind == 'repeat':
         return {'k': 'repeat'}
+    edition = bool(draw(st.integers(0, 2)))
     ms = draw(mibgen.module_sets(setcheck.profile_for(None, backends=('json',), dialects=('v2',), modules=(1, 2),
-                                                       decls=(1, 5), texts='short', skipblocks=False)))
-    bad = draw(st.sampled_from((None, None, 'trunc', 'lex')))
+                                                       decls=(1, 5), texts='short', skipblocks=False,
+                                                       sequential_names=edition)))
+    if edition:
+        ms = _as_editions(ms)
+    bad = draw(st.sampled_from((None, None, None, 'trunc', 'lex', 'absent')))
     return {'k': 'compile', 'mset': ms, 'bad': bad, 'ignoreErrors': draw(st.booleans())}
 
 
 @st.composite
 def histories(draw):
-    return {'steps': draw(st.lists(steps(), min_size=4, max_size=14))}
+    flat = []
+    for s_ in draw(st.lists(steps(), min_size=4, max_size=14)):
+        flat += s_ if isinstance(s_, list) else [s_]
+    return {'steps': flat}
 
 
 def _parse_outcome(parser, text):
@@ -135,6 +169,8 @@ def _compile(comp_factory, step):
         texts[names[0]] = texts[names[0]][:len(texts[names[0]]) // 2]
     elif step['bad'] == 'lex':
         texts[names[0]] = texts[names[0]].replace('::=', '::= $', 1)
+    elif step['bad'] == 'absent':
+        del texts[names[0]]      # no source holds it in this step (a later step may find it again)
     written = {}
     comp = comp_factory(texts, written)
 
@@ -359,19 +395,24 @@ END
 def hashseed_sweep(ctx):
     import hypothesis
     from hypothesis import settings, given, HealthCheck
-    nsets = ctx.pick(40, 300)
-    seeds = list(range(5)) if ctx.quick else list(range(24))
+    nsets = ctx.pick(50, 300)
+    seeds = list(range(8)) if ctx.quick else list(range(24))
     corpus = []
     prof = setcheck.profile_for(None, backends=('json', 'pysnmp'), dialects=('v2', 'v2', 'v1'), modules=(1, 3), decls=(3, 12),
                                 texts='short', skipblocks=True)
+    # second half: many type declarations in shuffled order (several symbols waiting for the same later declaration,
+    # resolved in one round of the symbol-table generator) - the shape where iteration over an unordered container shows
+    prof2 = setcheck.profile_for(None, backends=('json', 'pysnmp'), dialects=('v2',), modules=(1, 2), decls=(8, 16),
+                                 texts='short', skipblocks=False, kinds=('type', 'type', 'typefam', 'typefam', 'scalar', 'value', 'table'))
 
-    @hypothesis.seed(ctx.seed * 977 + 5)
-    @settings(max_examples=nsets, database=None, deadline=None, suppress_health_check=list(HealthCheck),
-              phases=[hypothesis.Phase.generate])
-    @given(mibgen.module_sets(prof))
-    def collect(ms):
-        corpus.append(ms)
-    collect()
+    for k, pr in enumerate((prof, prof2)):
+        @hypothesis.seed(ctx.seed * 977 + 5 + k)
+        @settings(max_examples=nsets, database=None, deadline=None, suppress_health_check=list(HealthCheck),
+                  phases=[hypothesis.Phase.generate])
+        @given(mibgen.module_sets(pr))
+        def collect(ms):
+            corpus.append(ms)
+        collect()
     tmp = tempfile.mkdtemp(prefix='c12h')
     try:
         cpath = os.path.join(tmp, 'corpus.json')
